@@ -25,6 +25,7 @@ type c13Config struct {
 	maxDur   time.Duration
 	fnDur    time.Duration // how long each attempt takes
 	ctxDl    time.Duration // the caller's context has this deadline (0 = none)
+	lsnDur   time.Duration // the OnRetryScheduled listener takes this long: the delay is waited after it has returned
 	draws    int
 }
 
@@ -48,6 +49,9 @@ func (c c13Config) String() string {
 	if c.ctxDl != 0 {
 		s += fmt.Sprintf(" contextDeadline=%v", c.ctxDl)
 	}
+	if c.lsnDur != 0 {
+		s += fmt.Sprintf(" slowScheduledListener=%v", c.lsnDur)
+	}
 	return s
 }
 
@@ -70,6 +74,8 @@ func (c c13Config) run() {
 		b = b.WithBackoff(c.d, 16*c.d).WithRandomDelay(c.d, 4*c.d)
 	case "fn-const":
 		b = b.WithDelay(c.d).WithDelayFunc(func(failsafe.ExecutionAttempt[int]) time.Duration { fnCalls++; return 3 * c.d })
+	case "fn-over-max": // a delay function's value is used as it is, also above the backoff's maxDelay
+		b = b.WithBackoff(c.d, 2*c.d).WithDelayFunc(func(failsafe.ExecutionAttempt[int]) time.Duration { fnCalls++; return 5 * c.d })
 	case "fn-minus1":
 		b = b.WithDelay(c.d).WithDelayFunc(func(failsafe.ExecutionAttempt[int]) time.Duration { fnCalls++; return -1 })
 	case "fn-negative":
@@ -101,7 +107,11 @@ func (c c13Config) run() {
 	var starts []int64
 	t0 := vrt.Elapsed()
 	b = b.OnRetryScheduled(func(e failsafe.ExecutionScheduledEvent[int]) {
-		scheds = append(scheds, sched{e.Delay, vrt.Elapsed(), time.Duration(vrt.Elapsed() - t0)})
+		el := time.Duration(vrt.Elapsed() - t0)
+		if c.lsnDur > 0 {
+			vrt.Sleep(int64(c.lsnDur))
+		}
+		scheds = append(scheds, sched{e.Delay, vrt.Elapsed(), el})
 	})
 	ex := failsafe.NewExecutor[int](b.Build())
 	if c.ctxDl != 0 {
@@ -139,6 +149,8 @@ func (c c13Config) run() {
 		switch c.kind {
 		case "fn-const":
 			fnVal = 3 * c.d
+		case "fn-over-max":
+			fnVal = 5 * c.d
 		case "fn-negative":
 			fnVal = -5
 		case "fn-alternating":
@@ -238,7 +250,7 @@ func c13Configs(tier string) []c13Config {
 	}
 	var kinds []kc
 	kinds = append(kinds, kc{"fixed-after-backoff-random", 0, 0}, kc{"random-after-backoff", 0, 0})
-	kinds = append(kinds, kc{"fixed", 0, 0}, kc{"random", 0, 0}, kc{"fn-const", 0, 0}, kc{"fn-minus1", 0, 0}, kc{"fn-negative", 0, 0}, kc{"fn-alternating", 0, 0})
+	kinds = append(kinds, kc{"fixed", 0, 0}, kc{"random", 0, 0}, kc{"fn-const", 0, 0}, kc{"fn-over-max", 0, 0}, kc{"fn-minus1", 0, 0}, kc{"fn-negative", 0, 0}, kc{"fn-alternating", 0, 0})
 	for _, f := range []float32{1.5, 2, 10} {
 		for _, m := range []time.Duration{4, 1000} {
 			kinds = append(kinds, kc{"backoff", f, m})
@@ -254,6 +266,12 @@ func c13Configs(tier string) []c13Config {
 				// the caller's context has a deadline of its own: before the first delay ends, and in the middle of a later one
 				for _, dl := range []time.Duration{d / 3, d*5/2 + 1} {
 					out = append(out, c13Config{kind: k.kind, d: d, factor: k.factor, maxDelay: k.mdMul * d, ctxDl: dl, draws: draws})
+				}
+			}
+			if k.kind == "fixed" || k.kind == "backoff" && k.factor == 2 && k.mdMul == 1000 {
+				// a listener that takes a while: the delay starts when it has returned
+				for _, ld := range []time.Duration{d / 2, 2 * d} {
+					out = append(out, c13Config{kind: k.kind, d: d, factor: k.factor, maxDelay: k.mdMul * d, lsnDur: ld, draws: draws})
 				}
 			}
 			jitters := []jc{{0, 0}, {d / 10, 0}, {d, 0}, {2 * d, 0}, {0, 0.1}, {0, 0.25}, {0, 1}}
@@ -286,7 +304,7 @@ func init() {
 	register(&CheckDef{
 		Property:  "C13",
 		Technique: "exhaustive enumeration of delay configurations, each executed on the real retry policy under the virtual clock with every random draw an enumerated choice point",
-		Rule: "a program = delay kind (fixed, backoff x factor x maxDelay, random range, four delay functions, two builder sequences that replace an earlier delay setting) x magnitude (1us .. 7h+1ns) x jitter (none, three durations, three factors) x max duration (none, 2.5 delays, huge) x attempt duration, plus a caller context whose own deadline falls inside the first or a later delay, eight consecutive failures; " +
+		Rule: "a program = delay kind (fixed, backoff x factor x maxDelay, random range, five delay functions (one answering more than the backoff's maxDelay), two builder sequences that replace an earlier delay setting) x magnitude (1us .. 7h+1ns) x jitter (none, three durations, three factors) x max duration (none, 2.5 delays, huge) x attempt duration, plus a caller context whose own deadline falls inside the first or a later delay, and an OnRetryScheduled listener that takes half a delay / two delays (the delay is waited after it has returned), eight consecutive failures; " +
 			"each draw of the first 3 (quick) / 5 (thorough) is enumerated over {0, 0.5, 1-2^-53}; distinct = distinct sequences of scheduled delays",
 		Assume: []string{"the jitter and random-range formulas are monotone in the draw, so the extreme draws bound every draw", "float32 arithmetic: equality with the real-number formula up to 2^-21 relative error per multiplication",
 			"configurations the builder documentation gives no meaning to (maxDelay < delay, delayMin > delayMax, factor < 1) are outside the alphabet"},
